@@ -993,6 +993,13 @@ func ComparisonExpr(query *Query, current Map, expr *sqlparser.ComparisonExpr, o
 }
 
 func BetweenExpr(query *Query, current Map, expr *sqlparser.BetweenExpr, opts ...ExprOption) (bool, error) {
+	// Backward Navigation, as for a comparison: `<-` in an operand means the
+	// document of this query, whatever marker the row inherited
+	current = maps.Clone(current)
+	if current == nil {
+		current = make(Map)
+	}
+	current["<-"] = query.data
 	point, err := Expr(query, current, expr.Left, opts...)
 	if err != nil {
 		return false, err
@@ -1152,6 +1159,12 @@ func LiteralExpr(query *Query, current Map, expr *sqlparser.Literal, opts ...Exp
 }
 
 func IsExpr(query *Query, current Map, expr *sqlparser.IsExpr, opts ...ExprOption) (bool, error) {
+	// Backward Navigation, as for a comparison
+	current = maps.Clone(current)
+	if current == nil {
+		current = make(Map)
+	}
+	current["<-"] = query.data
 	left, err := Expr(query, current, expr.Left, opts...)
 	if err != nil {
 		return false, err
@@ -1501,11 +1514,9 @@ func ExistExpr(query *Query, current Map, expr *sqlparser.ExistsExpr, opts ...Ex
 		if !ok {
 			return false, INVALID_TYPE.Extend(fmt.Sprintf("failed to build `EXIST` expression. expected an object but found %T", item))
 		}
-		merged := maps.Clone(item)
-		if merged == nil {
-			merged = make(Map)
-		}
-		for key, value := range current {
+		// a column of the nested row hides an outer column of the same name
+		merged := maps.Clone(current)
+		for key, value := range item {
 			merged[key] = value
 		}
 		from[i] = merged
